@@ -10,7 +10,7 @@ func C06(run *core.Run) {
 		"consensus statistics are compared through GetMomentumProducer of the next slots",
 	}
 	vsModelCheck(run, 3, 1, "abcde")
-	every := int64(12)
+	every := int64(40)
 	if run.Thorough() {
 		every = 3
 	}
